@@ -5,6 +5,7 @@ CONSTANTS
  NBk <- TNBk
  Inits <- TInits
  InoutInits <- TInits
+ DevInits <- TInits
  RouteInits <- TInits
  Runs <- TRuns
  QueuePersists = TRUE
@@ -19,6 +20,7 @@ CONSTANTS
  DevLinkDirect = FALSE
  DevBackupCount = FALSE
  DevInplaceInput = FALSE
+ DevMoveBeforeClose = FALSE
  DevRouteDiscard = FALSE
 INVARIANT NoEarlyEffect
 INVARIANT SuccessState
